@@ -112,6 +112,22 @@ def summarize(func, mutators=None):
     def ends_in_raise(block):
         return bool(block) and isinstance(block[-1], ast.Raise)
 
+    pc = []   # branch conditions under which the current block runs (raising guards before it are implicit by order)
+
+    def guard(test):
+        conds = [copy.deepcopy(c) for c in pc] + [test]
+        sm.guards.append(conds[0] if len(conds) == 1 else ast.BoolOp(op=ast.And(), values=conds))
+
+    def run_under(cond, block, env):
+        pc.append(cond)
+        try:
+            return run(block, env)
+        finally:
+            pc.pop()
+
+    def neg(t):
+        return ast.UnaryOp(op=ast.Not(), operand=copy.deepcopy(t))
+
     def run(block, env):
         """returns (env, ret) - ret is an expression if every path through the block returned"""
         for i, st in enumerate(block):
@@ -174,30 +190,30 @@ def summarize(func, mutators=None):
                         return env, r
                     continue
                 if ends_in_raise(st.body) and not st.orelse:
-                    sm.guards.append(test)
+                    guard(test)
                     continue
                 if ends_in_raise(st.body) and st.orelse:
-                    sm.guards.append(test)
+                    guard(test)
                     env, r = run(st.orelse, env)
                     if r is not None:
                         return env, r
                     continue
                 if st.orelse and ends_in_raise(st.orelse) and not any(isinstance(x, ast.If) for x in st.orelse[:-1]):
-                    sm.guards.append(ast.UnaryOp(op=ast.Not(), operand=test))
+                    guard(neg(test))
                     env, r = run(st.body, env)
                     if r is not None:
                         return env, r
                     continue
-                e1, r1 = run(st.body, dict(env))
-                e2, r2 = run(st.orelse, dict(env)) if st.orelse else (dict(env), None)
+                e1, r1 = run_under(test, st.body, dict(env))
+                e2, r2 = run_under(neg(test), st.orelse, dict(env)) if st.orelse else (dict(env), None)
                 rest = block[i + 1:]
                 if r1 is not None and r2 is not None:
                     return env, ast.IfExp(test=test, body=r1, orelse=r2)
                 if r1 is not None:
-                    envr, rr = run(rest, e2)
+                    envr, rr = run_under(neg(test), rest, e2)
                     return envr, (ast.IfExp(test=test, body=r1, orelse=rr) if rr is not None else None)
                 if r2 is not None:
-                    envr, rr = run(rest, e1)
+                    envr, rr = run_under(test, rest, e1)
                     return envr, (ast.IfExp(test=test, body=rr, orelse=r2) if rr is not None else None)
                 merged = dict(env)
                 for n in set(e1) | set(e2):
